@@ -6,6 +6,7 @@ import (
 
 	"github.com/enbility/spine-go/api"
 	"github.com/enbility/spine-go/model"
+	"github.com/enbility/spine-go/util"
 )
 
 type EntityLocal struct {
@@ -39,6 +40,20 @@ var _ api.EntityLocalInterface = (*EntityLocal)(nil)
 // serialises the copy-modify-store cycles on the use case data of NodeManagement,
 // which is shared by all entities of a device
 var useCaseMux sync.Mutex
+
+// the use case data to be modified: DataCopy is shallow, its lists share their backing arrays
+// with the stored data and with every copy handed out earlier, and the use case helpers write
+// in place, so they have to work on a copy of their own
+func useCaseDataCopy(nodeMgmt api.FeatureLocalInterface) (*model.NodeManagementUseCaseDataType, error) {
+	data, err := LocalFeatureDataCopyOfType[*model.NodeManagementUseCaseDataType](nodeMgmt, model.FunctionTypeNodeManagementUseCaseData)
+	if err != nil {
+		return nil, err
+	}
+
+	result := &model.NodeManagementUseCaseDataType{}
+	util.DeepCopy(data, result)
+	return result, nil
+}
 
 /* EntityLocalInterface */
 
@@ -148,7 +163,7 @@ func (r *EntityLocal) AddUseCaseSupport(
 
 	nodeMgmt := r.device.NodeManagement()
 
-	data, err := LocalFeatureDataCopyOfType[*model.NodeManagementUseCaseDataType](nodeMgmt, model.FunctionTypeNodeManagementUseCaseData)
+	data, err := useCaseDataCopy(nodeMgmt)
 	verifYieldLT("UseCase.copied")
 	if err != nil {
 		data = &model.NodeManagementUseCaseDataType{}
@@ -193,7 +208,7 @@ func (r *EntityLocal) SetUseCaseAvailability(
 
 	nodeMgmt := r.device.NodeManagement()
 
-	data, err := LocalFeatureDataCopyOfType[*model.NodeManagementUseCaseDataType](nodeMgmt, model.FunctionTypeNodeManagementUseCaseData)
+	data, err := useCaseDataCopy(nodeMgmt)
 	verifYieldLT("UseCase.copied")
 	if err != nil {
 		return
@@ -220,7 +235,7 @@ func (r *EntityLocal) RemoveUseCaseSupport(
 
 	nodeMgmt := r.device.NodeManagement()
 
-	data, err := LocalFeatureDataCopyOfType[*model.NodeManagementUseCaseDataType](nodeMgmt, model.FunctionTypeNodeManagementUseCaseData)
+	data, err := useCaseDataCopy(nodeMgmt)
 	verifYieldLT("UseCase.copied")
 	if err != nil {
 		return
@@ -244,7 +259,7 @@ func (r *EntityLocal) RemoveAllUseCaseSupports() {
 
 	nodeMgmt := r.device.NodeManagement()
 
-	data, err := LocalFeatureDataCopyOfType[*model.NodeManagementUseCaseDataType](nodeMgmt, model.FunctionTypeNodeManagementUseCaseData)
+	data, err := useCaseDataCopy(nodeMgmt)
 	verifYieldLT("UseCase.copied")
 	if err != nil {
 		return
